@@ -56,7 +56,7 @@ def gen_case(rng, tier):
     nd = rng.randint(1, 8)
     dgms = [ic.gen_bd_diagram(rng, cfg) for _ in range(nd)]
     ops = []
-    for _ in range(rng.randint(3, 10)):
+    for _ in range(rng.randint(3, 10 if tier == "quick" else 24)):
         kind = rng.choice(("collection", "collection", "collection", "single", "permuted", "union", "zero-added",
                            "preconverted", "fit_transform", "empty-in-collection", "single-in-list"))
         op = {"op": kind, "skew": True}
